@@ -126,16 +126,17 @@ Lemma decide_c2s c t size :
   decide c C2S t size =
     let m := effective_max c in
     if (m >? 0) && (size >? m)
-    then rejected (match t with WS => -1 | _ => 413 end)
-                  (match t with PostCL => 0 | _ => m + 1 end)
-    else accepted (match t with WS => -1 | _ => 200 end) size.
+    then rejected (match t with WS | WT => -1 | _ => 413 end)
+                  (match t with PostCL | WT => 0 | _ => m + 1 end)
+    else accepted (match t with WS | WT => -1 | _ => 200 end) size.
 Proof.
   intros Hs. cbv zeta.
   destruct t; unfold decide;
     try (rewrite post_decision_cases by (try lia; congruence); reflexivity).
-  unfold ws_outcome, ws_read_limit.
-  destruct (Z.gtb_spec (effective_max c) 0); simpl; auto.
-  destruct (Z.leb_spec size (effective_max c)), (Z.gtb_spec size (effective_max c)); auto; lia.
+  - unfold ws_outcome, ws_read_limit.
+    destruct (Z.gtb_spec (effective_max c) 0); simpl; auto.
+    destruct (Z.leb_spec size (effective_max c)), (Z.gtb_spec size (effective_max c)); auto; lia.
+  - reflexivity.
 Qed.
 
 Lemma decide_s2c c t size :
@@ -176,15 +177,15 @@ Lemma over_limit_rejected_and_closed c t size :
   limit_on c -> the_limit c < size ->
   let o := decide c C2S t size in
   o_accept o = false /\ o_closed o = true /\
-  (t <> WS -> o_status o = 413) /\ (t = PostCL -> o_pulled o = 0).
+  (t <> WS -> t <> WT -> o_status o = 413) /\ (t = PostCL \/ t = WT -> o_pulled o = 0).
 Proof.
   intros Hon Hs. destruct (effective_max_on c Hon) as [E Hpos]. cbv zeta.
   rewrite decide_c2s by lia. cbv zeta. rewrite E.
   destruct (Z.gtb_spec (the_limit c) 0); [|lia].
   destruct (Z.gtb_spec size (the_limit c)); [|lia]. simpl.
   repeat split; auto.
-  - destruct t; auto. congruence.
-  - intros ->. reflexivity.
+  - destruct t; auto; congruence.
+  - intros [-> | ->]; reflexivity.
 Qed.
 
 (** [size] is within what the handshake announced (maxPayload = 0: nothing is announced). *)
